@@ -339,6 +339,17 @@ class Normalizer:
                 if any(isinstance(x, ast.Call) and isinstance(x.func, ast.Name) and x.func.id == walker_name for x in ast.walk(n)):
                     self.helpers[n.name] = n
         self.uid = 0
+        # module-level constant tuples / lists of literals (loops over them are unrolled like loops over a literal tuple)
+        self.const_seqs = {}
+        for n in module_tree.body:
+            if isinstance(n, ast.Assign) and len(n.targets) == 1 and isinstance(n.targets[0], ast.Name) and isinstance(n.value, (ast.Tuple, ast.List)) \
+                    and n.value.elts and all(isinstance(e, ast.Constant) for e in n.value.elts):
+                self.const_seqs[n.targets[0].id] = n.value
+        stored = {}
+        for x in ast.walk(module_tree):
+            if isinstance(x, ast.Name) and isinstance(x.ctx, (ast.Store, ast.Del)):
+                stored[x.id] = stored.get(x.id, 0) + 1
+        self.const_seqs = {k: v for k, v in self.const_seqs.items() if stored.get(k) == 1}
 
     def _inline(self, call):
         """statements of the helper body with parameters substituted; the helper's `return X` becomes `_ret = X`."""
@@ -429,6 +440,8 @@ class Normalizer:
             if n is not st and isinstance(n, ast.Call) and isinstance(n.func, ast.Name) and n.func.id in self.helpers \
                     and not isinstance(st, (ast.If, ast.For, ast.While, ast.With, ast.Try)):
                 raise AnalysisError(f'line {st.lineno}: helper {n.func.id} is called inside an expression - not modelled')
+        if isinstance(st, ast.For) and isinstance(st.iter, ast.Name) and st.iter.id in self.const_seqs:
+            st.iter = self.const_seqs[st.iter.id]
         if isinstance(st, ast.For) and isinstance(st.iter, (ast.Tuple, ast.List)) and st.iter.elts and \
                 all(isinstance(e, ast.Constant) for e in st.iter.elts) and isinstance(st.target, ast.Name) and not st.orelse \
                 and not any(isinstance(x, (ast.Break, ast.Continue)) for x in ast.walk(st)):
